@@ -2,7 +2,7 @@ from checks import rapid, plain, fuzz, REPLAY
 
 CHECK = dict(
     pkg="c12", level="fault_enumeration",
-    rule="L1: internal/reghttp driven directly (1-4 logical requests GET/HEAD/DELETE/PUT on one fresh client; one Client.Do + reading the body = one logical request) and "
+    rule="(session 3: a referrer-aware manifest delete followed by a referrers listing on the same client, generated and enumerated over every fault word of limit 1-2) L1: internal/reghttp driven directly (1-4 logical requests GET/HEAD/DELETE/PUT on one fresh client; one Client.Do + reading the body = one logical request) and "
          "L2: every RegClient registry operation (blob get/head/put monolithic+chunked/delete/mount/copy, manifest get/head/put/delete incl. referrers fall-back, tag list with pagination, "
          "tag delete by API and by placeholder image, referrer list by API with paging and by tag, catalog, ping, image copy same/cross registry) against regmodel, "
          "x retry limit 1-5 x delayInit 2-20 ms x delayMax x topology (upstream + 0-3 mirrors with priorities incl. ties, each has/lacks the content) "
